@@ -229,7 +229,8 @@ def optionsOf (flags : List String) : Options :=
     force := has "force" "f", spokfileGiven := flags.any (·.startsWith "spokfile=") }
 
 def givenSpokfile (flags : List String) : Option String :=
-  (flags.find? (·.startsWith "spokfile=")).map fun f => (f.drop 9).toString
+  -- the flag library lets the LAST occurrence of a repeated flag win
+  (flags.reverse.find? (·.startsWith "spokfile=")).map fun f => (f.drop 9).toString
 
 def baseOf (p : String) : String := (p.splitOn "/").getLastD ""
 
